@@ -5,8 +5,10 @@ from typing import (
     Union,
     TYPE_CHECKING,
 )
+from collections import defaultdict
 from dataclasses import InitVar, dataclass, field
 from sigma.correlations import SigmaCorrelationRule
+from sigma.processing.tracking import FieldMappingTracking
 from sigma.processing.transformations.base import PreprocessingTransformation
 from sigma.rule import SigmaRule
 from sigma.exceptions import SigmaConfigurationError
@@ -50,9 +52,19 @@ class NestedProcessingTransformation(PreprocessingTransformation):
 
     def apply(self, rule: SigmaRule | SigmaCorrelationRule) -> None:
         super().apply(rule)
-        self._nested_pipeline.apply(rule)
         if self._pipeline is None:
             raise SigmaConfigurationError("Nested pipeline has not enclosing pipeline.")
+        # The nested items continue where the enclosing pipeline stands: conditions on the pipeline
+        # state and on items applied to field names see what happened before the nested pipeline.
+        nested = self._nested_pipeline
+        nested.applied = list()
+        nested.applied_ids = set()
+        nested.field_name_applied_ids = defaultdict(
+            set, {k: set(v) for k, v in self._pipeline.field_name_applied_ids.items()}
+        )
+        nested.field_mappings = FieldMappingTracking()
+        nested.state = dict(self._pipeline.state)
+        nested._apply_items(rule)
         self._pipeline.applied.extend(self._nested_pipeline.applied)
         self._pipeline.applied_ids.update(self._nested_pipeline.applied_ids)
         self._pipeline.field_name_applied_ids.update(self._nested_pipeline.field_name_applied_ids)
